@@ -19,6 +19,22 @@ CLAIMS = {
             "7 C13", "function contracts + cap invariant + history lemma (Verus)"),
     "C04": ("Verus proves on the real packages/cw3 code that votes_needed(w,p) == ceil(floor(1e9*w*p/1e18)/1e9) with the u64 cast in range and no overflow (strict shim), that is_passed/is_rejected equal spec functions written from the cw3 threshold rules for every valid threshold and tally <= total, and lemmas: exact for <=9 decimals, within one vote and never stricter for 18, monotone, p/(1-p) complement, never both passed and rejected, early Passed/Rejected sound for every completion, Passed needs yes > 0.",
             "7 C04", "function contracts against spec functions + nonlinear arithmetic lemmas (Verus)"),
+    "C03": ("Verus proves Proposal::current_status/update_status == spec_status written from the cw3 threshold rules (on the real packages/cw3 code), that both multisigs recompute and store exactly that on every vote, admit Execute only when it is Passed and Close only when expired and not Passed, and keep the stored tally equal, kind by kind, to the recorded ballots (sum-over-storage invariants); Passed needs yes > 0.",
+            "7 C03", "function contracts + spec-function equality + sum-over-storage invariants (Verus)"),
+    "C05": ("Verus proves whole-state step relations of propose/vote/execute/close of both multisigs: next id = count+1, expiry clamped to the maximum voting period, Execute only on Passed (and authorised in flex) storing Executed and dispatching exactly the proposal's messages (after the refund), Close only on expired non-passed proposals dispatching nothing but the refund; lemmas: content fixed, stored status only moves forward, at most one successful Execute per proposal over any history.",
+            "7 C05", "function contracts + lifecycle lemmas over histories (Verus)"),
+    "C06": ("fixed: Verus proves total_weight == sum of the voter table (instantiate loop invariant; duplicate voters rejected after fix 9201625), one ballot per voter with the voter's table weight >= 1 (proposer's implicit Yes may be 0), tally == weight of voters with a ballot <= total, voter table immutable. flex: ballot weight == the group's Member{at_height: start_height} answer >= 1 via verified cw4 helper contracts; the two snapshot clauses of Propose are recorded known findings (D3).",
+            "7 C06", "function contracts + weighted-sum invariants + group oracle (Verus)"),
+    "C15": ("Verus proves on packages/cw3/deposit.rs and cw3-flex: Propose succeeds only if exactly the configured native amount is attached or emits exactly one cw20 TransferFrom of the amount from the proposer; Execute always emits exactly one refund to the proposer when a deposit exists; Close emits the refund iff refund_failed_proposals; no other call emits messages. Recoverability of voted-down deposits is a recorded known finding (D6); created-expired proposals fixed (426f6f3).",
+            "7 C15", "function contracts on emitted messages + known-finding variants (Verus)"),
+    "C07": ("Verus proves for cw1-whitelist Execute: Ok <=> sender is a listed admin, messages == exactly the submitted ones in order, storage untouched; for cw1-subkeys Execute an exact success condition (admin, or every message covered in order by permissions / unexpired sufficient allowance, threaded through a loop invariant), exact relay, and that only the caller's own allowance entry changes.",
+            "7 C07", "function contracts with exact (iff) success conditions + loop invariant (Verus)"),
+    "C08": ("Verus proves the subkey spend path leaves exactly run(allowance, msgs) (sequential NativeBalance subtraction, expiry checked on every Bank send), increase/decrease relations (admin only, expired restarts from zero, saturating, expiry must be in the future), and lemmas: per denomination relayed + remaining == initial, budget inequality per step, other subkeys' entries untouched.",
+            "7 C08", "function contracts + loop invariant + per-denomination lemmas (Verus)"),
+    "C16": ("Both code paths get exact contracts over one spec predicate: CanExecute returns exec_ok(state, block, sender, [msg]) and Execute succeeds iff exec_ok(state, block, sender, msgs); the lemma instantiates msgs = [msg]. Any divergence of either path fails its own obligation.",
+            "7 C16", "relational: two exact contracts over one shared spec predicate (Verus)"),
+    "C17": ("Verus proves Freeze/UpdateAdmins succeed only for a listed admin while mutable and write exactly the new list/flag, every other handler leaves the admin list alone, allowance/permission changes require a listed admin; lemmas: immutable is absorbing over any history.",
+            "7 C17", "function contracts + frames + absorbing-state lemma (Verus)"),
 }
 
 NOT_YET = "machinery for this property is not built yet in this round (see DESIGN.md section 11 build order); not claimed until its unit verifies on the unchanged tree"
